@@ -2,6 +2,7 @@ package main
 
 import (
 	"fmt"
+	"os"
 	"sync"
 	"sync/atomic"
 	"time"
@@ -29,6 +30,7 @@ type pool struct {
 	hangs    int64 // children killed for not answering
 	maxHangs int64 // give up (exhaustive=false) after that many
 	children int64
+	cells    int64
 	gaveUp   int32
 	mu       sync.Mutex
 	infra    []string
@@ -123,6 +125,9 @@ func (p *pool) runShare(jobs []execJob, todo []cell, out [][]cellOutcome, ncpu i
 		for _, r := range oc.Results {
 			c := back[r.Job][r.Set]
 			out[c.j][c.s] = cellOutcome{Done: true, Res: r}
+		}
+		if n := atomic.AddInt64(&p.cells, int64(len(oc.Results))); os.Getenv("C07_DEBUG") != "" && n/2000 != (n-int64(len(oc.Results)))/2000 {
+			fmt.Fprintf(os.Stderr, "c07: %d cells done, %d children\n", n, atomic.LoadInt64(&p.children))
 		}
 		if !oc.Stuck {
 			return
